@@ -35,7 +35,7 @@ def conv_world(g, r, base):
         if r.chance(1, 3):
             lines.append("forget %d %d" % (a, b))
         sid += 1000
-        lines.append("conv %d %d 16 sid=%d" % (a, b, sid))
+        lines.append("conv %d %d 16 sid=%d%s" % (a, b, sid, " maxpolls=8" if base["kind"] == "bigseg" else ""))
     return {"kind": "conv:" + base["kind"], "lines": lines}
 
 
@@ -51,6 +51,7 @@ def gen_cases(ctx):
     cases += [conv_world(g, r, g.long_chain()) for _ in range(n_long)]
     cases += [conv_world(g, r, g.straddle()) for _ in range(n_str)]
     cases += [conv_world(g, r, g.partial()) for _ in range(max(2, n_str // 2))]
+    cases += [conv_world(g, r, g.bigseg()) for _ in range(4 if ctx.thorough else 1)]
     return cases
 
 
